@@ -261,6 +261,32 @@ def real_prepare(req):
     return ('ok', tuple(x + (None, 'e') for x in a))
 
 
+def real_preparesig(req):
+    """the signature the wrapper object advertises, provenance included: a FRESH function (callable 1) decorated with the
+    selection; the wrapper object is registered as callable 7"""
+    P, W, ps = req[1:4]
+    stacked = len(req) > 4
+    f = core.make_def(tuple(ps), body='return None  # preparesig')
+    core.register_callable(f, 1)
+    try:
+        with warnings.catch_warnings():
+            warnings.simplefilter('ignore')
+            if P and W and stacked:
+                d = modifiers.kwoargs(*W)(modifiers.posoargs(*P)(f))
+            elif P and W:
+                d = modifiers._PokTranslator(f, posoargs=P, kwoargs=W)     # one wrapper object carrying both selections
+            elif P:
+                d = modifiers.posoargs(*P)(f)
+            elif W:
+                d = modifiers.kwoargs(*W)(f)
+            else:
+                return ('err', 'ValueError')        # the decorators refuse an empty selection; the model's prepare accepts it
+    except Exception as e:  # noqa
+        return core.canon_exc(e)
+    core.register_callable(d, 7)
+    return core.run_real(specifiers.signature, d)
+
+
 def real_names(req):
     op = req[0]
     try:
@@ -325,3 +351,4 @@ def real_partialsig(req):
 
 
 OPS['partialsig'] = real_partialsig
+OPS['preparesig'] = real_preparesig
